@@ -783,6 +783,11 @@ NextLaneTask:
 
 func (c *Change) abortTasks(tasks []*Task, abortedLanes map[int]bool, seenTasks map[string]bool) {
 	var lanes []int
+	// Tasks that were not started are only put on hold after everything
+	// else was aborted (see the end of the function): holding them makes
+	// them ready, and doing that before a done task is set to undo could
+	// make the whole change look ready for a moment.
+	var hold []*Task
 	for i := 0; i < len(tasks); i++ {
 		t := tasks[i]
 		if seenTasks[t.id] {
@@ -792,7 +797,7 @@ func (c *Change) abortTasks(tasks []*Task, abortedLanes map[int]bool, seenTasks 
 		switch taskEffectiveStatus(t) {
 		case DoStatus:
 			// Still pending so don't even start.
-			t.SetStatus(HoldStatus)
+			hold = append(hold, t)
 		case DoingStatus:
 			// In progress so stop and undo it.
 			t.SetStatus(AbortStatus)
@@ -815,6 +820,9 @@ func (c *Change) abortTasks(tasks []*Task, abortedLanes map[int]bool, seenTasks 
 	}
 	if len(lanes) > 0 {
 		c.abortLanes(lanes, abortedLanes, seenTasks)
+	}
+	for _, t := range hold {
+		t.SetStatus(HoldStatus)
 	}
 }
 
